@@ -29,7 +29,7 @@ META = dict(
     text='Kernel-checked theorems over the model of script.py for scripts of any length and any number of segments: for every '
          'well-formed sequence of code / single-quoted / double-quoted / comment / ${expr} segments the character state machine '
          'returns the text with each embed replaced by PBK_<index of its trimmed expression in first-occurrence order> and every '
-         'other character unchanged, same expression <=> same name, table keys = the distinct trimmed expressions, bound names '
+         'other character unchanged; a script is such a segment sequence exactly when the scan ends outside literals and embeds (so the theorem covers every closed script); same expression <=> same name, table keys = the distinct trimmed expressions, bound names '
          'pairwise distinct, metadata_only <=> every expression starts with % <=> every expression is dispatched to the metadata '
          'querent, level 1 = concat(level 2), level 0 = head(level 1) or None, level 2 = per-subset leaves of level 4, argument > '
          'pragma > default. Correspondence: all strings of length <= 6 (quick) / <= 7 (thorough) over 9 symbols, random and small '
@@ -48,7 +48,10 @@ SPACES = [' ', '\t', '\n', '\r', '\x0b', '\x0c', '\x1c', '\x1f', '\x85', '\xa0',
 # implementation side
 def impl_pre(s):
     from pybufrkit.script import process_embedded_query_expr
-    code, subs = process_embedded_query_expr(s)
+    try:
+        code, subs = process_embedded_query_expr(s)
+    except Exception as e:  # never expected: shows up as a disagreement with oracle and model
+        return '<raised %s>' % core.err_tag(e), []
     return code, [[k, v] for k, v in subs.items()]
 
 
@@ -199,6 +202,31 @@ def mutate_text(rng, s):
     return s[:i] + c + s[i + 1:]
 
 
+def fails(s):
+    exp = oracle_pre(s)
+    if exp is None:
+        return False
+    code, subs = impl_pre(s)
+    return [code, subs] != [exp[0], exp[1]]
+
+
+def shrink_string(s):
+    """greedy chunk deletion while the implementation still disagrees with the oracle on a closed script"""
+    if not fails(s):
+        return s
+    n = max(1, len(s) // 2)
+    while n >= 1:
+        i = 0
+        while i < len(s):
+            t = s[:i] + s[i + n:]
+            if fails(t):
+                s = t
+            else:
+                i += n
+        n //= 2
+    return s
+
+
 def pre_signature(s, impl, expected):
     """structural signature of a disagreement between implementation and specification"""
     if impl[1] != expected[1]:
@@ -227,9 +255,17 @@ def check_segs(ctx, seg_lists, label):
         if bad is None and exp is not None and [code, subs] != [exp[0], exp[1]]:
             bad = (exp[0], exp[1], 'regex oracle')
         if bad:
-            ctx.violation('preprocessing of %r: implementation gives %r %r, %s demands %r %r' % (text, code, subs, bad[2], bad[0], bad[1]),
-                          {'string': text, 'segs': segs, 'impl': [code, subs], 'expected': [bad[0], bad[1]]},
-                          signature=pre_signature(text, [code, subs], bad))
+            small = shrink_string(text)
+            if small != text and fails(small):
+                sc, ss = impl_pre(small)
+                so = oracle_pre(small)
+                ctx.violation('preprocessing of %r (shrunk): implementation gives %r %r, the property demands %r %r' % (small, sc, ss, so[0], so[1]),
+                              {'string': small, 'from': text, 'impl': [sc, ss], 'expected': [so[0], so[1]]},
+                              signature=pre_signature(small, [sc, ss], so))
+            else:
+                ctx.violation('preprocessing of %r: implementation gives %r %r, %s demands %r %r' % (text, code, subs, bad[2], bad[0], bad[1]),
+                              {'string': text, 'segs': segs, 'impl': [code, subs], 'expected': [bad[0], bad[1]]},
+                              signature=pre_signature(text, [code, subs], bad))
         elif [code, subs] != [m['code'], m['subs']]:
             ctx.corr_breaks.append({'string': text, 'impl': [code, subs], 'model': [m['code'], m['subs']]})
 
@@ -245,9 +281,12 @@ def check_strings(ctx, strings, label):
         if (exp is not None) != m['closed']:
             raise core.MachineryError('the oracle tokenizer and the model (closedScript) disagree on whether %r is closed' % s)
         if exp is not None and [code, subs] != [exp[0], exp[1]]:
-            ctx.violation('preprocessing of %r: implementation gives %r %r, the property demands %r %r' % (s, code, subs, exp[0], exp[1]),
-                          {'string': s, 'impl': [code, subs], 'expected': [exp[0], exp[1]]},
-                          signature=pre_signature(s, [code, subs], exp))
+            small = shrink_string(s)
+            sc, ss = impl_pre(small)
+            so = oracle_pre(small)
+            ctx.violation('preprocessing of %r: implementation gives %r %r, the property demands %r %r' % (small, sc, ss, so[0], so[1]),
+                          {'string': small, 'from': s, 'impl': [sc, ss], 'expected': [so[0], so[1]]},
+                          signature=pre_signature(small, [sc, ss], so))
         elif [code, subs] != [m['code'], m['subs']]:
             ctx.corr_breaks.append({'string': s, 'impl': [code, subs], 'model': [m['code'], m['subs']]})
 
